@@ -75,7 +75,7 @@ def mk_app(fn, args=(), kw=()):
             lead = sorted(p.t.items(), key=lambda mc: _mono_key(mc[0]))
             lead = [c for m, c in lead if m != ()][0]
             if lead < 0:
-                return sub(Const(1), App("cdf", (mk_num(-p),)))
+                return sub(Const(1), mk_app("cdf", [mk_num(-p)]))
         if p is not None and p.is_const() and p.const_value() == 0:
             return Const(Fraction(1, 2))
     if fn == "getitem" and len(args) == 2:
@@ -104,7 +104,7 @@ def _ppf(x):
         if p.const_value() == 1 and not p.is_const():
             items = sorted(((m, c) for m, c in p.t.items() if m != ()), key=lambda mc: _mono_key(mc[0]))
             if items[0][1] < 0:
-                return neg(App("ppf", (mk_num(Poly.const(1) - p),)))
+                return neg(_ppf(mk_num(Poly.const(1) - p)))
         # 1 - cdf(t) -> ppf = -t
         q = Poly.const(1) - p
         a = q.as_atom()
